@@ -209,6 +209,10 @@ def parse_slice(text: str):
     return None
 
 
+def _is_aug_target(fn_node: ast.AST, y: ast.Attribute) -> bool:
+    return any(isinstance(a, ast.AugAssign) and a.target is y for a in ast.walk(fn_node))
+
+
 def check(model: Model, run: Run) -> None:
     ex = extraction(model)
     run.explanation = ("who-may-write census of the outgoing buffer over the whole package plus a path enumeration of "
@@ -313,6 +317,40 @@ def check(model: Model, run: Run) -> None:
         if not copied:
             run.fail(Finding("D1-returns-a-copy", drain.qualname, f"return {rt[:80]}", "the drained bytes are returned without a copy (they alias the live buffer)", model.loc(drain.module, p.ret_stmt)))
         offset_attrs = sorted({v[0] for k, v, s in other_ops if k in ("attr_assign", "attr_aug")})
+        if lo in (None, "0") and offset_attrs:
+            # the slice starts at the front of the buffer: the other attributes the drain writes are bookkeeping (running totals).
+            # A total the drain never reads back is a statistic and not this property's business; one it does read back (directly
+            # or through a property of the class) decides how much is handed out next, so it must count the bytes handed out -
+            # `len(<what is returned>)` - and not the amount asked for, which may exceed what is pending.
+            cls_q = drain.cls
+            def attrs_read(node, depth=0):
+                out = set()
+                for x in ast.walk(node):
+                    if isinstance(x, ast.Attribute) and isinstance(x.value, ast.Name) and x.value.id == "self" and isinstance(x.ctx, ast.Load):
+                        out.add(x.attr)
+                        pm = model.find_method(cls_q, x.attr) if cls_q else None
+                        if pm is not None and "property" in " ".join(pm.decorators) and depth < 3:
+                            out |= attrs_read(pm.node, depth + 1)
+                return out
+            fed_back = attrs_read(drain.node)
+            for k, v, s_ in list(other_ops):
+                if k not in ("attr_assign", "attr_aug") or v[0] not in offset_attrs:
+                    continue
+                if v[0] not in fed_back:
+                    run.note(f"data_to_send keeps a running total in self.{v[0]} that it never reads back: not judged")
+                    other_ops.remove((k, v, s_))
+                    continue
+                val = expand(str(v[-1]), defs)
+                counted = f"len({rt})" in val.replace(" ", "").replace("((", "(").replace("))", ")") or f"len({strip_parens(rt)})" in val or \
+                    (isinstance(p.ret, ast.Name) and f"len({p.ret.id}" in norm(s_))
+                run.ob("D6-totals-count-what-was-handed-out", counted, dict(label, attribute=v[0], stepped_by=val[:60]))
+                if not counted:
+                    run.fail(Finding("D6-totals-count-what-was-handed-out", drain.qualname, f"self.{v[0]} stepped by {val[:50]}",
+                                     f"data_to_send reads self.{v[0]} back to decide how much to hand out, but steps it by `{norm(s_)[:60]}` - the amount asked for, not the number of bytes "
+                                     "returned: after one call that asked for more than was pending the total is wrong for good, and later calls hand out too little or nothing",
+                                     model.loc(drain.module, s_)))
+                other_ops.remove((k, v, s_))
+            offset_attrs = []
         if lo in (None, "0") and not offset_attrs:
             # design A: plain prefix / suffix
             ok = False
@@ -394,12 +432,29 @@ def check(model: Model, run: Run) -> None:
             bad = [o for o in other_ops if o[0] in ("attr_assign", "attr_aug") or (o[0] == "call" and "self." in str(o[1]))][0]
             run.fail(Finding("D4-drain-effect-set", drain.qualname, f"{bad[0]} {str(bad[1])[:80]}", "draining changes session attributes other than the outgoing buffer", model.loc(drain.module, bad[2])))
     # Engine D view: draining never changes protocol state / id sets in any class
+    # (an attribute that only the drain itself and read-only properties ever read is a running total: D6 judges those)
+    totals = set()
+    smod = model.modules[drain.module]
+    for x in ast.walk(drain.node):
+        if isinstance(x, ast.Attribute) and isinstance(x.value, ast.Name) and x.value.id == "self" and isinstance(x.ctx, ast.Store):
+            a_ = x.attr
+            readers = set()
+            for fq_, f_ in model.functions.items():
+                if f_.module != drain.module or isinstance(f_.node, ast.Lambda):
+                    continue
+                if any(isinstance(y, ast.Attribute) and y.attr == a_ and isinstance(y.ctx, ast.Load) for y in ast.walk(f_.node)):
+                    readers.add(fq_)
+            if all(model.functions[r_].name == drain.name or "property" in " ".join(model.functions[r_].decorators) or
+                   not any(isinstance(y, ast.Attribute) and y.attr == a_ and isinstance(y.ctx, ast.Load) and not _is_aug_target(model.functions[r_].node, y) for y in ast.walk(model.functions[r_].node))
+                   for r_ in readers):
+                totals.add(a_)
+    totals.discard(OBUF)
     for q in SESSION_CLASSES:
         for p in ex.paths[q]:
             if p.entry != drain.name:
                 continue
             bad = [e for e in p.effects if e.kind in ("state", "set_add", "set_remove", "set_discard", "set_assign", "counter", "extend") or
-                   (e.kind in ("attr_assign", "attr_call") and e.a not in (OBUF,) and not str(e.a).startswith("_outgoing"))]
+                   (e.kind in ("attr_assign", "attr_call") and e.a not in (OBUF,) and not str(e.a).startswith("_outgoing") and str(e.a) not in totals)]
             ok = not bad and p.post_state == p.pre_state
             run.ob("D4-drain-effect-set", ok)
             if not ok:
